@@ -29,6 +29,7 @@ type c17Obs struct {
 	Bytes    int    `json:"file_bytes"`
 	Source   string `json:"source"`
 	Encoding string `json:"encoding"`
+	Reason   int    `json:"entry_reason_code"`
 	PeakHeap uint64 `json:"peak_live_heap_bytes"`
 	BaseHeap uint64 `json:"baseline_heap_bytes"`
 	Samples  int    `json:"samples"`
@@ -37,10 +38,14 @@ type c17Obs struct {
 }
 
 // writeBigCRL streams a CRL with n entries to a file without holding it in memory.
-func writeBigCRL(path string, ca *CA, n int, pemEnc bool) (int, *big.Int) {
+func writeBigCRL(path string, ca *CA, n int, pemEnc bool, reason ...int) (int, *big.Int) {
 	// entries of fixed size: serial 8 bytes (high byte 0x10..), UTCTime
 	entry := func(i int) []byte {
-		return EntryTLV(EntryOpts{Serial: new(big.Int).SetUint64(0x1000000000000000 + uint64(i))})
+		o := EntryOpts{Serial: new(big.Int).SetUint64(0x1000000000000000 + uint64(i))}
+		if len(reason) > 0 {
+			o.Reason = reason[0] // every entry carries a reasonCode entry extension with this value
+		}
+		return EntryTLV(o)
 	}
 	es := len(entry(0))
 	listLen := es * n
@@ -109,10 +114,18 @@ func runC17(c *Ctx) {
 	if c.Thorough() {
 		sizes = []int{20000, 200000, 2000000}
 	}
-	type variant struct{ source, enc string }
-	variants := []variant{{"file", "der"}, {"http", "der"}, {"file", "pem"}}
+	type variant struct {
+		source, enc string
+		reason      int // reasonCode entry extension of every entry (0: entries without extensions)
+	}
+	// the bound holds whatever the entries carry: also when every entry has a reasonCode extension, including the
+	// values an implementation might treat specially (8 removeFromCRL, 6 certificateHold)
+	variants := []variant{{"file", "der", 0}, {"http", "der", 0}, {"file", "pem", 0}, {"file", "der", 8}}
 	if c.Thorough() {
-		variants = append(variants, variant{"http", "pem"})
+		variants = append(variants, variant{"file", "der", 6}, variant{"http", "der", 1})
+	}
+	if c.Thorough() {
+		variants = append(variants, variant{"http", "pem", 0})
 	}
 	self, _ := os.Executable()
 	caPEM := writeCertPEM(c, ca.Cert)
@@ -120,9 +133,13 @@ func runC17(c *Ctx) {
 	for _, v := range variants {
 		var peaks []c17Obs
 		for _, n := range sizes {
-			path := filepath.Join(c.Work, fmt.Sprintf("c17_%s_%s_%d.crl", v.source, v.enc, n))
-			size, last := writeBigCRL(path, ca, n, v.enc == "pem")
-			wd := c.TempDir(fmt.Sprintf("c17wd_%s_%s_%d", v.source, v.enc, n))
+			path := filepath.Join(c.Work, fmt.Sprintf("c17_%s_%s_%d_%d.crl", v.source, v.enc, v.reason, n))
+			var rs []int
+			if v.reason != 0 {
+				rs = []int{v.reason}
+			}
+			size, last := writeBigCRL(path, ca, n, v.enc == "pem", rs...)
+			wd := c.TempDir(fmt.Sprintf("c17wd_%s_%s_%d_%d", v.source, v.enc, v.reason, n))
 			leaf := ca.IssueLeaf(LeafOpts{CN: "c17", Serial: last})
 			leafPath := filepath.Join(c.Work, "c17leaf.der")
 			mustNoErr(os.WriteFile(leafPath, leaf.Cert.Raw, 0600))
@@ -134,7 +151,7 @@ func runC17(c *Ctx) {
 			if err != nil || json.Unmarshal(out, &o) != nil {
 				o.Err = fmt.Sprintf("child failed: %v %s", err, string(out))
 			}
-			o.N, o.Bytes, o.Source, o.Encoding = n, size, v.source, v.enc
+			o.N, o.Bytes, o.Source, o.Encoding, o.Reason = n, size, v.source, v.enc, v.reason
 			peaks = append(peaks, o)
 			all = append(all, o)
 			os.Remove(path)
@@ -142,7 +159,8 @@ func runC17(c *Ctx) {
 			c.Count("source=" + v.source)
 			c.Count("encoding=" + v.enc)
 			c.Count("entries~" + bucket(n))
-			c.Nontrivial(fmt.Sprintf("%s|%s|%d", v.source, v.enc, n))
+			c.Count(fmt.Sprintf("entry-reasonCode=%d", v.reason))
+			c.Nontrivial(fmt.Sprintf("%s|%s|%d|%d", v.source, v.enc, v.reason, n))
 		}
 		for _, o := range peaks {
 			if o.Err != "" {
@@ -169,7 +187,7 @@ func runC17(c *Ctx) {
 	}
 	c.Rep.Cases = len(all)
 	c.Rep.Cases += c17ComponentStage(c, ca)
-	c.Rep.Rule = "CRLs with 20 000 / 200 000 (thorough: 2 000 000) fixed-size entries streamed to disk, loaded by a real validator with disk storage in a child process from a configured file or an HTTP origin, DER and PEM; the child samples runtime.MemStats.HeapAlloc every 10 ms with a forced GC every 100 ms; oracle: the peak live heap grows by less than a quarter of the growth of the input (and less than 24 MiB is always tolerated); the listed last entry must be revoked; plus, on their own and with a 1 000 000-entry (thorough: 4 000 000) CRL: the URL loader downloading into a file, the file loader copying a configured file, and the streaming reader on DER and on PEM with a consumer that keeps nothing — heap sampled every millisecond must stay below a quarter of the input"
+	c.Rep.Rule = "CRLs with 20 000 / 200 000 (thorough: 2 000 000) fixed-size entries streamed to disk, loaded by a real validator with disk storage in a child process from a configured file or an HTTP origin, DER and PEM, entries without extensions and entries that all carry a reasonCode extension (8 removeFromCRL; thorough: also 6 and 1); the child samples runtime.MemStats.HeapAlloc every 10 ms with a forced GC every 100 ms; oracle: the peak live heap grows by less than a quarter of the growth of the input (and less than 24 MiB is always tolerated); the listed last entry must be revoked; plus, on their own and with a 1 000 000-entry (thorough: 4 000 000) CRL: the URL loader downloading into a file, the file loader copying a configured file, and the streaming reader on DER and on PEM with a consumer that keeps nothing — heap sampled every millisecond must stay below a quarter of the input"
 }
 
 // child: --work "path|source|caPEM|leafDER|caDER"
